@@ -63,7 +63,7 @@ fn gen(rng: &mut Rng, idx: u64, tier: Tier) -> Case {
         let addrs = gen::addresses(rng, 2);
         let mut acs: Vec<gen::Ac> = addrs.iter().map(|&a| gen::aircraft(rng, a)).collect();
         let kind = *rng.pick(&[Kind::Df11, Kind::AirPos, Kind::Df4]);
-        let total = 65_530 + rng.range(0, 40) as usize;
+        let total = if (idx / 4000) % 2 == 1 { 100_001 + rng.range(0, 2_000) as usize } else { 65_530 + rng.range(0, 40) as usize };
         let mut lines: Vec<(i64, Vec<u8>, String)> = vec![];
         let tag = format!("{:?}", kind).to_lowercase();
         for i in 0..total {
@@ -172,7 +172,7 @@ fn counter_lines(out: &str) -> Vec<&str> {
     out.lines()
         .filter(|l| {
             let t = l.trim_end();
-            !t.is_empty() && t.split(' ').all(|tok| tok.strip_prefix("DF").and_then(|r| r.split_once(':')).map(|(a, b)| !a.is_empty() && !b.is_empty() && a.bytes().all(|c| c.is_ascii_digit()) && b.bytes().all(|c| c.is_ascii_digit() || c == b'-')).unwrap_or(false))
+            !t.is_empty() && t.split(' ').all(|tok| tok.strip_prefix("DF").and_then(|r| r.split_once(':')).map(|(a, b)| !a.is_empty() && !b.is_empty() && a.bytes().all(|c| c.is_ascii_digit())).unwrap_or(false))
         })
         .collect()
 }
